@@ -600,6 +600,12 @@ def drain_loop_check(func, pop_ev):
         if len(succ) == 1 and not any(e_["k"] in ("decl", "assign") for e_ in func.blocks[pop_ev.block].elems if e_.get("idx", 0) > pop_ev.idx):
             jd = [d for d in func.blocks[succ[0]].elems if d["k"] == "decl" and d.get("var") and "unique_ptr" in (d.get("type") or "")]
             decl = jd[:1]
+    if not decl:
+        # `while ((x = q.popSafe()) && ...)`: assigned to a local declared earlier
+        asg = [c for c in func.blocks[pop_ev.block].elems if c["k"] == "call" and c.get("op") == "=" and c.idx > pop_ev.idx and
+               ((c.get("recv") or {}).get("v") or (c.get("recv") or {}).get("root")) and "popSafe" in (c.get("t") or "")]
+        if asg:
+            decl = [{"var": asg[0]["recv"].get("v") or asg[0]["recv"].get("root")}]
     if strip_tmpl(pop_ev.get("callee") or "") != "Pistache::Queue::popSafe" or not decl:
         return None, "consumer does not bind the popSafe result to a local (shape not modelled)"
     var = decl[0]["var"]
@@ -607,7 +613,8 @@ def drain_loop_check(func, pop_ev):
     null_edges = set()
     for b in func.blocks.values():
         t = b.term
-        if t and t.get("k") in ("if", "while", "for", "do") and (t.get("core") or {}).get("root") == var and not t.get("cmp"):
+        if t and t.get("k") in ("if", "while", "for", "do", "land", "lor") and not t.get("cmp") and len(b.succs) == 2 and \
+                ((t.get("core") or {}).get("root") == var or re.match(r"^\(?\s*%s\s*=[^=]" % re.escape(var), (t.get("core") or {}).get("t") or "")):
             null_edges.add((b.id, 0 if t.get("neg") else 1))
 
     def edge2(st, blk, k, succ):
